@@ -12,7 +12,7 @@ tvars == <<tid, verdict>>
 
 ObsOf(x) ==
   [cfg |-> x.cfg, reqs |-> x.reqs, nmain |-> x.nmain, mainStart |-> x.mainStart, mainEnd |-> x.mainEnd,
-   mainOut |-> x.mainOut, runEnd |-> x.runEnd, runOut |-> x.runOut, open |-> x.open,
+   mainOut |-> x.mainOut, runEnd |-> x.runEnd, runOut |-> x.runOut, open |-> x.open, leaked |-> x.leaked,
    db |-> x.db, files |-> x.files, warnTeardown |-> x.warnTeardown]
 
 TInit == tid \in 1..Len(T) /\ verdict = "?"
